@@ -245,7 +245,7 @@ impl Version {
 }
 pub open spec fn current_record(id: u64, checksum: u128) -> Seq<Field> { seq![Field::U64(id), Field::U128(checksum), Field::U8(0)] }
 
-//@ FROM src/version/persist.rs :: - :: fn persist_version :: OBL C05.1, C16.4, C10.8
+//@ FROM src/version/persist.rs :: - :: fn persist_version :: OBL C05.1, C16.4, C10.8, C04.17
 //@ SUBST `crate :: Result < ( ) >` ==> `Result<(), Error>`
 //@ SUBST `folder . join ( format ! ( "v{}" , version . id ( ) ) )` ==> `folder.join_version(version.id())`
 //@ SUBST `retry_transient_io ( || $1 )` ==> `$1`
